@@ -21,8 +21,8 @@ import (
 )
 
 type LMsg struct {
-	B  hx.B  `json:"b"`
-	Ts int32 `json:"ts"`
+	B  hx.B  `json:"b"`  // the slice the listener was handed, NOT a copy: serialised when the session is over, so a delivered
+	Ts int32 `json:"ts"` // message that is later overwritten by the library (reused buffer) shows up as changed content
 }
 
 type LChunk struct {
@@ -98,7 +98,7 @@ func runSession(s *LSession) {
 		}
 		p := hx.Catch(func() {
 			stop, err = midi.ListenTo(ins[0], func(m midi.Message, ts int32) {
-				cur = append(cur, LMsg{B: cp(m), Ts: ts})
+				cur = append(cur, LMsg{B: hx.B(m), Ts: ts})
 			}, opts...)
 			if err == nil {
 				err = outs[0].Open()
@@ -129,7 +129,7 @@ func runSession(s *LSession) {
 	case "reader":
 		var rd *drivers.Reader
 		rd = drivers.NewReader(drivers.ListenConfig{SysEx: s.Sysex, SysExBufferSize: s.Cap, ActiveSense: s.As, TimeCode: s.Tc},
-			func(m []byte, ts int32) { cur = append(cur, LMsg{B: cp(m), Ts: ts}) })
+			func(m []byte, ts int32) { cur = append(cur, LMsg{B: hx.B(m), Ts: ts}) })
 		for i := range s.Chunks {
 			c := &s.Chunks[i]
 			cur = nil
